@@ -7,6 +7,7 @@ toolchain go1.23.5
 require (
 	github.com/tonistiigi/fsutil v0.0.0-00010101000000-000000000000
 	golang.org/x/sys v0.11.0
+	google.golang.org/protobuf v1.31.0
 	pgregory.net/rapid v1.3.0
 )
 
@@ -17,7 +18,6 @@ require (
 	github.com/pkg/errors v0.9.1 // indirect
 	github.com/planetscale/vtprotobuf v0.6.0 // indirect
 	golang.org/x/sync v0.1.0 // indirect
-	google.golang.org/protobuf v1.31.0 // indirect
 )
 
 replace github.com/tonistiigi/fsutil => /repo
